@@ -634,6 +634,17 @@ func buildLeaves() []*Leaf {
 		{Name: "*Level", Type: reflect.TypeOf((*Level)(nil)), Caps: CapRef | CapNamed,
 			Gen: func(r *fw.Rand, uniq int) reflect.Value { x := Level(uniq % 200); return rv(&x) }},
 		localNodePlainLeaf(), localNodeRefsLeaf(),
+		// a routing table: 150-250 entries pointing at 3 shared targets (many references to already-seen pointees)
+		{Name: "[]*Limits(fan-in)", Type: reflect.TypeOf([]*Limits{}), Caps: CapRef,
+			Gen: func(r *fw.Rand, uniq int) reflect.Value {
+				targets := []*Limits{{Max: uniq, Rate: 1}, {Max: uniq + 1, Rate: 2}, {Max: uniq + 2, Rate: 3}}
+				n := r.Range(150, 250)
+				out := make([]*Limits, n)
+				for k := range out {
+					out[k] = targets[(k*7+uniq)%3]
+				}
+				return rv(out)
+			}},
 	}
 	return ls
 }
